@@ -12,7 +12,7 @@ sch=json.load(open('/root/.vp/EVIDENCE.schema.json'))
 for f in sorted(glob.glob('/verif/evidence/*.json')):
     e=json.load(open(f)); jsonschema.validate(e,sch)
     c=e['coverage']
-    assert c.get('obligations')==c.get('discharged')+len(c.get('known_findings_hit',[])), f
+    assert c.get('obligations')==c.get('discharged'), f
 jsonschema.validate(json.load(open('/verif/MANIFEST.json')), json.load(open('/root/.vp/MANIFEST.schema.json')))
 print('evidence and manifest valid')
 PY
